@@ -73,12 +73,17 @@ class Check(BaseCheck):
                 stats.monitor("normalize_ev skipped: boundary surface of the tetra sub-collection is not an orientable manifold")
                 continue
             area, vol = enc[1]
-            for meth in ("surface", "volume", "geometry"):
-                if kind == "tet" and meth == "surface":
+            for meth in ("surface", "volume", "geometry", "volume-inward"):
+                if kind == "tet" and meth in ("surface", "volume-inward"):
                     continue          # TetMesh has no area(): AttributeError, outside the property
-                if kind == "tri" and meth == "volume" and vol <= 0:
+                if kind == "tri" and meth.startswith("volume") and vol <= 0:
                     continue          # open surface: enclosed volume 0
-                res = core.call(shapedna.normalize_ev, mk(kind, v, t), ev.copy(), meth)
+                if meth == "volume-inward":
+                    # the same closed surface with every triangle reversed (consistently inward): same enclosed volume
+                    res = core.call(shapedna.normalize_ev, mk(kind, v, t[:, [0, 2, 1]]), ev.copy(), "volume")
+                    meth = "volume"
+                else:
+                    res = core.call(shapedna.normalize_ev, mk(kind, v, t), ev.copy(), meth)
                 rr = wire.Reply(drv.ask("normalize_ev %s %d %s %s %s" % (meth, int(kind == "tet"), wire.floats(ev), wire.fhex(area), wire.fhex(vol))))
                 if res[0] != "ok" or rr.status != "ok" or core.relerr(res[1], rr.floats()) > 1e-9:
                     fails.append(core.Failure("correspondence", "normalize_ev vs model", "%s %s: impl %s" % (kind, meth, str(res)[:80]), dict(case, method=meth)))
@@ -141,6 +146,9 @@ class Check(BaseCheck):
             with core.quiet():
                 n1 = shapedna.normalize_ev(mk(kind, v, t), ev.copy(), meth)
                 n2 = shapedna.normalize_ev(mk(kind, s * v, t), spec(s * v, t), meth)
+                n3 = shapedna.normalize_ev(mk(kind, v @ R.T, t), ev.copy(), meth) if kind == "tri" else n1     # reflected copy: inward oriented
+            if not np.all(np.isfinite(n3)) or np.max(np.abs(n3 - n1)) > 1e-9 * max(1, np.abs(n1).max()):
+                return core.Violation("normalize_ev", "normalised spectrum of the reflected (inward oriented) copy differs or is not finite (method %s)" % meth, case)
             ref = ev * (area if (meth == "surface" or (meth == "geometry" and kind == "tri")) else vol ** (2.0 / 3.0))
             if np.max(np.abs(n1 - ref)) > 1e-9 * max(1, np.abs(ref).max()):
                 return core.Violation("normalize_ev", "method %s does not multiply by area / volume^(2/3)" % meth, case)
